@@ -700,16 +700,28 @@ def _terminates(P, fn_, g, w: ast.While) -> Tuple[bool, str]:
             return False, f"`{L}` is popped, but not on every iteration or elements are added inside the loop ({[norm.U(a) for a in adds]})"
     # (b) every iteration draws from an iterator with next(): a finite iterator ends the loop by StopIteration
     nexts = [c for c in body_nodes if isinstance(c, ast.Call) and norm.is_name(c.func, "next") and len(c.args) == 1]
+    # next(it, None): exhaustion is the answer None instead of StopIteration
+    nexts_d = [c for c in body_nodes if isinstance(c, ast.Call) and norm.is_name(c.func, "next") and len(c.args) == 2 and isinstance(c.args[1], ast.Constant) and c.args[1].value is None
+               and isinstance(parent(c), ast.Assign) and len(parent(c).targets) == 1 and isinstance(parent(c).targets[0], ast.Name)]
     handlers = [h for x in body_nodes if isinstance(x, ast.Try) for h in x.handlers]
     catches_stop = any(h.type is None or "StopIteration" in norm.U(h.type) or norm.U(h.type) in ("Exception", "BaseException") for h in handlers)
     if nexts and not catches_stop and _loop_paths_all_pass(g, w, nexts):
         return True, f"every iteration draws with {norm.U(nexts[0])}; the iterator is finite, StopIteration leaves the loop"
     # (c) rotated scan over a list of iterators with exhaustion flags
-    if nexts and catches_stop:
-        its = {norm.U(c.args[0]) for c in nexts}
+    if (nexts and catches_stop) or (nexts_d and not nexts):
+        by_default = not nexts
+        if by_default:
+            nexts = nexts_d
+        def _drawn_from(c):
+            """next(it[i]..) or next((x for x in it[i] if ..)..): the iterator drawn from"""
+            a = c.args[0]
+            if isinstance(a, ast.GeneratorExp) and len(a.generators) == 1:
+                return a.generators[0].iter
+            return a
+        its = {norm.U(_drawn_from(c)) for c in nexts}
         idx = None
         for c in nexts:
-            a = c.args[0]
+            a = _drawn_from(c)
             if isinstance(a, ast.Subscript) and isinstance(a.slice, ast.Name):
                 idx = a.slice.id
         flags = None
@@ -720,6 +732,24 @@ def _terminates(P, fn_, g, w: ast.While) -> Tuple[bool, str]:
                         and norm.is_name(st.targets[0].slice, idx or "?") and isinstance(st.value, ast.Constant) and st.value.value is True:
                     flags = st.targets[0].value.id
                     flag_sets.append(st)
+        if by_default:
+            drawn = {parent(c).targets[0].id for c in nexts}
+            for st in body_nodes:
+                if isinstance(st, ast.Assign) and len(st.targets) == 1 and isinstance(st.targets[0], ast.Subscript) and isinstance(st.targets[0].value, ast.Name) \
+                        and norm.is_name(st.targets[0].slice, idx or "?") and isinstance(st.value, ast.Constant) and st.value.value is True \
+                        and any(("cmp", "is", x, "None") in g.facts_at(st) for x in drawn):
+                    flags = st.targets[0].value.id
+                    flag_sets.append(st)
+            # every exhausted draw is flagged: no way from a draw that answered None back to the loop test without the flag
+            if flags is not None:
+                hid = g.node_of(w).id
+                fids = {g.node_of(st).id for st in flag_sets}
+                for c in nexts:
+                    x = parent(c).targets[0].id
+                    miss = g.path_avoiding(g.node_of(parent(c)).id, {hid}, fids, edge_ok=lambda a, b, lab, x=x: not (isinstance(lab, tuple) and lab[0] == "cond"
+                                                                                                                     and ("cmp", "isnot", x, "None") in norm.atoms_true(lab[1])))
+                    if miss is not None:
+                        flags = None
         if idx is None or flags is None:
             return False, "next() on iterators inside try/except StopIteration, but no per-iterator exhaustion flag is set in the handler"
         # left when all are exhausted: the test `all(flags)` ends the loop, checked in every iteration before the draw
